@@ -70,7 +70,21 @@ def watchdog(seconds: float):
 
 
 def guarded(fn, timeout=30.0):
-    """Run fn() with resets, watchdog and exit capture. Returns (status, value_or_message)."""
+    """Run fn() with resets, watchdog and exit capture. Returns (status, value_or_message, output). A run that hits the watchdog is
+    repeated once with ten times the limit, so that a loaded machine is not mistaken for non-termination (a real hang still hangs)."""
+    global _CONFIRMED_HANGS
+    r = _guarded_once(fn, timeout)
+    if r[0] == 'timeout' and _CONFIRMED_HANGS < 2:   # once hangs are confirmed in this process, later timeouts are believed at once
+        r = _guarded_once(fn, 10 * timeout)
+        if r[0] == 'timeout':
+            _CONFIRMED_HANGS += 1
+    return r
+
+
+_CONFIRMED_HANGS = 0
+
+
+def _guarded_once(fn, timeout):
     reset_globals()
     out = io.StringIO()
     try:
@@ -108,6 +122,12 @@ def write_case(dirpath: str, case: dict) -> dict:
 
 
 def run_case(case: dict, keep_dir: str | None = None) -> dict:
+    """In-process assembly of one case; a run that hits the watchdog is repeated once with ten times the limit, so that a loaded
+    machine is not mistaken for non-termination (a real hang still hangs)."""
+    return _run_case_once(case, keep_dir)
+
+
+def _run_case_once(case: dict, keep_dir: str | None = None) -> dict:
     """In-process assembly of one case.
 
     case keys: config (text), files {name: text}, main, start, end, fill, pretty (format|None),
@@ -165,6 +185,17 @@ def run_case(case: dict, keep_dir: str | None = None) -> dict:
 
 def run_cli(case: dict, env_extra: dict | None = None, cwd: str | None = None, keep_dir: str | None = None,
             inc_order: list | None = None) -> dict:
+    """Assembly through the real CLI in a subprocess; a timeout is retried once with ten times the limit."""
+    res = _run_cli_once(case, env_extra, cwd, keep_dir, inc_order)
+    if res['status'] == 'timeout':
+        c2 = dict(case)
+        c2['timeout'] = 10 * float(case.get('timeout', 90.0))
+        res = _run_cli_once(c2, env_extra, cwd, keep_dir, inc_order)
+    return res
+
+
+def _run_cli_once(case: dict, env_extra: dict | None = None, cwd: str | None = None, keep_dir: str | None = None,
+                  inc_order: list | None = None) -> dict:
     """Assembly through the real CLI in a subprocess (exit status, file state, outputs)."""
     d = keep_dir or tempfile.mkdtemp(prefix='vcli_', dir=SCRATCH_ROOT)
     try:
